@@ -50,19 +50,34 @@ def wire : Val F → Str
   | .time t o => isoTime .seconds t ++ isoOff o
   | .none => []
 
-/-- the values the round-trip clause quantifies over: exactly the declared class, a real calendar
-    date / clock time / offset, and (CPython) an integer `str()` can print -/
-def rtDomain (ty : PyType) (v : Val F) : Bool :=
-  v.exactType ty && v.wellFormed &&
+/-- in-domain values: a real calendar date / clock time / offset, and (CPython) an integer `str()` can print -/
+def valueOk (v : Val F) : Bool :=
+  v.wellFormed &&
   (match v with
    | .int i => (natDigits i.natAbs).length ≤ maxStrDigits
    | _ => true)
+
+/-- a `bool` given for an integer type (Python: `bool` is a subclass of `int`, `True == 1`) -/
+def boolAsInt (ty : PyType) (v : Val F) : Bool :=
+  ty == .int && (match v with | .bool _ => true | _ => false)
+
+/-- the values the round-trip clause quantifies over: every in-domain value of the declared class
+    — exactly that class, or a `bool` under an integer type -/
+def rtDomain (ty : PyType) (v : Val F) : Bool :=
+  (v.exactType ty || boolAsInt ty v) && valueOk v
+
+/-- the value the round trip must give back: the value itself; a `bool` sent under an integer
+    type comes back as the integer equal to it (`True == 1`, `False == 0`) -/
+def expectBack (ty : PyType) (v : Val F) : Val F :=
+  match ty, v with
+  | .int, .bool b => .int (if b then 1 else 0)
+  | _, _ => v
 
 /-- round trip as observed: `w` = what `coerce_upnp v` gave, `back` = what `coerce_python` gave for it -/
 def rtOk (ty : PyType) (v : Val F) (w : Except Err Str) (back : Except Err (Val F)) : Bool :=
   !rtDomain ty v ||
   (match w, back with
-   | .ok s, .ok v' => s == wire fo v && v' == v
+   | .ok s, .ok v' => s == wire fo v && v' == expectBack ty v
    | _, _ => false)
 
 /-! ### accepted input spellings -/
@@ -111,11 +126,16 @@ def spell : Spelling → Val F → Option Str
       | _ => none
   | _, _ => none
 
+/-- the values a spelling clause is about: the wire form for all of `rtDomain`, the alternative
+    spellings for values of exactly the declared class -/
+def spellDomain (ty : PyType) (sp : Spelling) (v : Val F) : Bool :=
+  rtDomain ty v && (sp == .canon || v.exactType ty)
+
 /-- an accepted spelling of an in-domain value must be read back as that value -/
 def spellOk (ty : PyType) (sp : Spelling) (v : Val F) (s : Str) (got : Except Err (Val F)) : Bool :=
-  !(rtDomain ty v && spell fo sp v == some s) ||
+  !(spellDomain ty sp v && spell fo sp v == some s) ||
   (match got with
-   | .ok v' => v' == v
+   | .ok v' => v' == expectBack ty v
    | _ => false)
 
 /-- any string: the converter answers with a value or with ValueError, nothing else -/
